@@ -316,7 +316,8 @@ func runC18(r *Report, rng *rand.Rand, thorough bool) {
 	// ---------------- client side: the providers of pkg/securityprovider
 	icases := NewCases("cases_C18_intercept", "From V Require Import Model.Security Corr.Eval.", "provider * request * request", "mismatches_intercept")
 	// incl. texts whose base64 form (after "user:") needs the two symbols that differ between the standard and the URL alphabet
-	creds := []string{"tok", "a b", "p@ss:w0rd", "ünï", "x=y&z", "a~cret", "p?ssword", "пароль", ">>>???~~~", "", "very-long-" + strings.Repeat("k", 40)}
+	// (incl. credentials that begin with the words the providers themselves put in front: the credential is attached as given)
+	creds := []string{"Bearer abc", "Bearer ", "Basic dXNlcjpwYXNz", "bearer lower", "tok", "a b", "p@ss:w0rd", "ünï", "x=y&z", "a~cret", "p?ssword", "пароль", ">>>???~~~", "", "very-long-" + strings.Repeat("k", 40)}
 	nReq := 120
 	if thorough {
 		nReq = 2000
